@@ -1,6 +1,7 @@
 package rules
 
 import (
+	"go/types"
 	"fmt"
 	"strings"
 
@@ -29,6 +30,8 @@ func c11(c *Ctx) {
 	sCommitCoversConfig(c, "R5/S-COMMITCFG")
 	sDelete(c, "R5/S-DELETE")
 	sState(c, "R6/S-STATE")
+	c02R1(c, "R6/C02.R1")
+	c02R2(c, "R6/C02.R2")
 }
 
 func sinkTracks(c *Ctx, createPrefix string) []engine.Track {
@@ -62,6 +65,37 @@ func c11R1(c *Ctx, rule string) {
 	fn := c.Fn(rule, "(*Raft).takeSnapshot")
 	if fn == nil {
 		return
+	}
+	// the committed configuration recorded in the snapshot is fetched AFTER the
+	// FSM has produced its snapshot: fetched earlier, a membership change that
+	// commits and is applied in between is covered by the snapshot's index but
+	// missing from its metadata
+	{
+		r0 := c.Run(&engine.Automaton{Fn: fn, Tracks: []engine.Track{
+			engine.Event("fsmAnswered", func(in ssa.Instruction) bool {
+				cc := engine.CallCommonOf(in)
+				return cc != nil && c.P.CalleeName(cc) == "(*deferError).Error" && strings.Contains(c.P.D(engine.RecvValue(in)), "reqSnapshotFuture")
+			}),
+			predErr("fsmErr", "new(reqSnapshotFuture).deferError.Error()"),
+		}})
+		n0 := 0
+		engine.EachInstr(fn, func(in ssa.Instruction) {
+			sel, ok := in.(*ssa.Select)
+			if !ok {
+				return
+			}
+			for _, st := range sel.States {
+				if st.Dir == types.SendOnly && c.P.D(st.Chan) == "recv.configurationsCh" {
+					n0++
+					c.RequireAt(r0, rule, "takeSnapshot:configuration-fetched-after-fsm-snapshot", in, "the configurations request is sent only after the FSM snapshot request was answered without error", func(v engine.View) bool {
+						return v.Seen("fsmAnswered") && v.F("fsmErr")
+					})
+				}
+			}
+		})
+		if n0 != 1 {
+			c.Bad(rule, "takeSnapshot:configuration-request", c.P.Pos(fn.Pos()), "one send on configurationsCh", fmt.Sprintf("%d", n0))
+		}
 	}
 	tracks := append(sinkTracks(c, "recv.snapshots.Create("),
 		engine.Event("persist", c.P.IsCallTo(engine.Is("iface:FSMSnapshot.Persist"))),
